@@ -46,6 +46,7 @@ class VList:
 
     def copy(self):
         c = VList(self.length, self.arr, self.elem, self.cls)
+        c.filter_of = getattr(self, "filter_of", None)
         return c
 
     def __repr__(self):
